@@ -75,8 +75,27 @@ def run(chk) -> None:
             )
     chk.ok("attr-kind", f"{len(scope)} functions", f"{n_calls} attribute calls resolved against {MOD} class members; none calls a property")
 
-    # R2: solve inside a handler for PulpSolverError -----------------------------
+    # R2-R5: every class of solver configuration and outcome, evaluated (checks/c01e.py); pinned path rules as the fallback
+    from checks import c01 as _c01x, c01e
+
+    if not _c01x.fact_first(chk, "fault-classes", conv.where, c01e.fault_fact(chk)):
+        check_paths_pinned(chk, conv, dotb)
+
+    # FCFS and fill are lossless: shared verifiers of C01
+    try:
+        from checks import c01
+
+        c01.check_fcfs(chk)
+        c01.check_fill(chk)
+    except ImportError:
+        pass
+
+
+def check_paths_pinned(chk, conv, dotb) -> None:
+    """Pinned-form path rules R2-R5 (fallback when the fault classes cannot be evaluated)."""
+    repo = chk.repo
     fm = FlowMap(conv.node)
+    # R2: solve inside a handler for PulpSolverError -----------------------------
     solves = astq.calls(conv.node, "solve")
     if not solves:
         raise AnalysisError("convert_to_dot_bracket: no call of .solve() found (solver invocation idiom not recognised)")
@@ -298,14 +317,6 @@ def run(chk) -> None:
     chk.floor("fallback-is-fcfs", 3)
     chk.floor("solver-none-guard", 2)
 
-    # FCFS and fill are lossless: shared verifiers of C01
-    try:
-        from checks import c01
-
-        c01.check_fcfs(chk)
-        c01.check_fill(chk)
-    except ImportError:
-        pass
 
 
 def handler_catches(h: ast.ExceptHandler, name: str) -> bool:
@@ -365,5 +376,5 @@ MANIFEST_ENTRY = {
     "either the FCFS value or the verified fill; no property is called, nothing is raised, nothing is read from an unsolved model. "
     "Holds for all inputs because it is a statement about all paths of the code, not about sampled runs.",
     "note": "Trusted: CPython ast; PuLP fault model (solve raises PulpSolverError or leaves a non-optimal status); FCFS/fill losslessness is C01's obligation (re-run here). Not decided: other exception types thrown by a back-end; more than 30 levels.",
-    "technique": "static analysis: attribute-kind resolution + dominating-guard (path condition) analysis + handler coverage over the ast",
+    "technique": "static analysis: attribute-kind resolution + truth table over the finite classes of solver configuration and outcome (no solver, no back-end installed, PulpSolverError, status Not Solved / Infeasible / Unbounded / Undefined, Optimal; HiGHS available or not) - the fragment is interpreted from the ast against a PuLP API model, every statement of it must be reached; fallback: dominating-guard (path condition) analysis + handler coverage over the ast",
 }
